@@ -1021,6 +1021,171 @@ def _part_fd(sh, tier, res):
             res.sample({"part": "fd", "stream": stream})
 
 
+# =========================================================================== part 4
+# Foreign SGR through ONE decoder instance.  A stream is a sequence of 1-3 SGR sequences, each
+# followed by one character ("a", "b", "c"), over an alphabet of PARAMETER LISTS; three layouts:
+# all on one line / one sequence per line (state carried across decode_line calls) / one per line
+# inside an open OSC 8 hyperlink.  Oracle: vf/term.py Decoder on the same bytes.
+SG_ON = ["1", "2", "3", "4", "5", "6", "7", "8", "9", "21", "51", "52", "53"]
+SG_OFF = ["22", "23", "24", "25", "26", "27", "28", "29", "54", "55"]
+SG_RESET = ["0", ""]
+SG_256 = ["38;5;0", "38;5;1", "38;5;196", "48;5;0", "48;5;1", "48;5;196"]
+SG_RGB = ["%d;2;%d;%d;%d" % (k, r, g, b) for k in (38, 48) for r in (0, 128, 255) for g in (0, 128, 255)
+          for b in (0, 128, 255)]
+SG_BASIC = ["31", "91", "42", "102", "39", "49"]
+SG_COMBINED = ["1;38;2;0;0;0", "0;1", "1;0", "1;31", "38;5;0;1", "48;2;0;0;0;3", "3;48;5;0", "0;38;2;0;128;255"]
+SG_TRUNC = ["38;5", "38;2;0;0", "38", "48;2"]
+SG_UNKNOWN = ["99", "10"]
+SG_FULL = SG_ON + SG_OFF + SG_RESET + SG_256 + SG_RGB + SG_BASIC + SG_COMBINED + SG_TRUNC + SG_UNKNOWN
+SG_SMALL = ["1", "3", "4", "21", "22", "24", "0", "", "38;5;0", "38;5;196", "48;5;0", "38;2;0;128;255",
+            "38;2;255;255;255", "48;2;0;0;0", "48;2;128;0;255", "31", "39", "49", "1;38;2;0;0;0", "0;1", "1;0",
+            "38;5", "38;2;0;0", "99"]
+SG_MID = SG_SMALL + ["2", "5", "6", "7", "9", "53", "23", "25", "26", "27", "29", "55", "38;5;1", "48;5;196",
+                     "48;2;0;128;0", "38;2;0;0;0", "91", "42", "38;5;0;1", "3;48;5;0", "38"]
+SG_LAYOUTS = ["inline", "lines", "linked"]
+
+
+def _pclass(pl):
+    """coarse class of a parameter list (for finding keys)"""
+    if pl == "":
+        return "empty"
+    if pl == "0":
+        return "reset"
+    if pl in SG_ON:
+        return "attr-on"
+    if pl in SG_OFF:
+        return "off-" + pl
+    if pl in SG_TRUNC:
+        return "truncated"
+    if pl in SG_UNKNOWN:
+        return "unknown"
+    parts = pl.split(";")
+    if parts[0] in ("38", "48") and len(parts) == 3 and parts[1] == "5":
+        return ("fg" if parts[0] == "38" else "bg") + "-256"
+    if parts[0] in ("38", "48") and len(parts) == 5 and parts[1] == "2":
+        return ("fg" if parts[0] == "38" else "bg") + "-rgb"
+    if len(parts) == 1:
+        return "basic-colour"
+    return "combined"
+
+
+def _sg_stream(plists, layout):
+    sep = "" if layout == "inline" else "\n"
+    body = sep.join("\x1b[%sm%s" % (pl, "abc"[i]) for i, pl in enumerate(plists))
+    return (_osc8("", U1) if layout == "linked" else "") + body + "\n"
+
+
+def _canon_vis(v):
+    """256-colour palette entries 0-15 ARE the 16 standard colours: 38;5;1 and 31 mean the same"""
+    def c(col):
+        return ("std", col[1]) if col is not None and col[0] == "idx" and col[1] < 16 else col
+    return (v[0], c(v[1]), c(v[2]), v[3])
+
+
+def _sg_diff(got, want, plists):
+    """got / want: flat [(char, vis)] of the characters a, b, c -> None or (clause, message)"""
+    gch, wch = "".join(c for c, _ in got), "".join(c for c, _ in want)
+    if gch != wch:
+        return ("chars", "characters %r, terminal %r" % (gch, wch))
+    for i, ((ch, gv), (_, wv)) in enumerate(zip(got, want)):
+        gv, wv = _canon_vis(gv), _canon_vis(wv)
+        if gv != wv:
+            for f, a, b in zip(_FIELD, gv, wv):
+                if a != b:
+                    return ("after-%s" % (_pclass(plists[i]) if i < len(plists) else "?"),
+                            "%r (after SGR %r): %s=%r, terminal %r" % (ch, plists[i] if i < len(plists) else "?", f, a, b))
+    return None
+
+
+def check_sgr(plists, layout, driver, res):
+    case = {"part": "sg", "plists": list(plists), "layout": layout, "driver": driver}
+    stream = _sg_stream(plists, layout)
+    res.evaluations += 1
+    cells, controls, d = decode(stream)
+    want = [c for c in cells if c[0] != "\n"]
+    verdict = "ok"
+    got = None
+    try:
+        if driver == "decoder":
+            from rich.ansi import AnsiDecoder
+            dec = AnsiDecoder()
+            got = [c for t in dec.decode(stream) for c in _rich_cells(t)]
+        else:
+            from rich.file_proxy import FileProxy
+            console = _console()
+            sink = _Sink()
+            proxy = FileProxy(console, sink)
+            for line in stream.splitlines(True):
+                proxy.write(line)
+            proxy.flush()
+            ocells, octl, od = decode(console.file.getvalue())
+            got = [c for c in ocells if c[0] != "\n"] + [("<%s>" % (t[0],), NULLVIS) for t in octl]
+            if sink.getvalue():
+                got.append(("<sink>", NULLVIS))
+            # attribute the failure: when a bare decoder already reads the stream differently the
+            # finding is the decoder's (same key as the decoder driver), else it is the proxy's own
+            from rich.ansi import AnsiDecoder
+            alone = [c for t in AnsiDecoder().decode(stream) for c in _rich_cells(t)]
+            if _sg_diff(alone, want, plists):
+                driver = "decoder"
+    except Exception as e:
+        res.violate(_crash_key(e, "ansi.py"), case, "%s on %r: %r" % (driver, stream, e))
+        verdict = "crash"
+    if got is not None:
+        err = _sg_diff(got, want, plists)
+        if err:
+            res.violate("sgr/%s/%s" % (driver, err[0]), case, "%s on %r: %s (expected = vf/term.py on the same bytes)"
+                        % ("one AnsiDecoder" if case["driver"] == "decoder" else "FileProxy", stream, err[1]))
+            verdict = err[0]
+    vis = [_canon_vis(v) for _, v in want]
+    res.sig(("sg", case["driver"], layout, tuple(sorted(set(_pclass(pl).split("-")[0] for pl in plists))),
+             len(set(vis)), verdict), nontrivial=any(v != vis[0] for v in vis) or vis[0][:3] != NULLVIS[:3])
+
+
+def _sg_cases(sub, tier):
+    """(plists, layout, driver)"""
+    quick = tier == "quick"
+    if sub == "S1":
+        for pl in SG_FULL:
+            for lay in SG_LAYOUTS:
+                yield (pl,), lay, "decoder"
+                yield (pl,), lay, "proxy"
+    elif sub == "S2":
+        for a in SG_FULL:
+            for b in SG_FULL:
+                for lay in SG_LAYOUTS:
+                    yield (a, b), lay, "decoder"
+    elif sub == "SP2":
+        for a in SG_FULL:
+            for b in SG_FULL:
+                for lay in (SG_LAYOUTS[:2] if quick else SG_LAYOUTS):
+                    yield (a, b), lay, "proxy"
+    elif sub == "S3":
+        M = SG_SMALL if quick else SG_MID
+        for a in M:
+            for b in M:
+                for c in M:
+                    for lay in SG_LAYOUTS:
+                        yield (a, b, c), lay, "decoder"
+    elif sub == "SP3":
+        for a in SG_SMALL:
+            for b in SG_SMALL:
+                for c in SG_SMALL:
+                    yield (a, b, c), "lines", "proxy"
+
+
+def _part_sg(sh, tier, res):
+    for idx, (plists, lay, driver) in enumerate(_sg_cases(sh["sub"], tier)):
+        if idx % sh["n"] != sh["i"]:
+            continue
+        if idx % 512 == sh["i"] and deadline_passed():
+            res.capped = True
+            break
+        check_sgr(plists, lay, driver, res)
+        if idx % 9973 == 0:
+            res.sample({"part": "sg", "plists": list(plists), "layout": lay, "driver": driver})
+
+
 # =========================================================================== protocol
 def plan(tier, seed):
     shards = []
@@ -1030,6 +1195,9 @@ def plan(tier, seed):
     nfd = {"quick": {"F1": 1, "F2": 8, "F3": 2}, "thorough": {"F1": 1, "F2": 32, "F3": 8}}[tier]
     for sub, n in nfd.items():
         shards += [{"part": "fd", "sub": sub, "i": i, "n": n} for i in range(n)]
+    nsg = {"quick": {"S1": 1, "S2": 6, "SP2": 12, "S3": 6}, "thorough": {"S1": 1, "S2": 6, "SP2": 16, "S3": 32, "SP3": 8}}[tier]
+    for sub, n in nsg.items():
+        shards += [{"part": "sg", "sub": sub, "i": i, "n": n} for i in range(n)]
     for spec in stream_sets(tier):
         nstreams = sum(1 for _ in streams(spec[2], spec[3], spec[4]))
         n = min(nstreams, 48 if tier == "quick" else 160)
@@ -1043,6 +1211,8 @@ def run_shard(sh, tier, seed):
         _part_rt(sh, tier, res)
     elif sh["part"] == "fd":
         _part_fd(sh, tier, res)
+    elif sh["part"] == "sg":
+        _part_sg(sh, tier, res)
     else:
         _part_fp(sh, tier, res)
     return res
@@ -1103,6 +1273,8 @@ def replay(case):
         check_line(c, res, AnsiDecoder())
     elif case.get("part") == "fd":
         check_foreign(case["stream"], res)
+    elif case.get("part") == "sg":
+        check_sgr(tuple(case["plists"]), case["layout"], case["driver"], res)
     else:
         check_history(case["variant"], [list(op) for op in case["ops"]], res)
     return [(k, v[2]) for k, v in sorted(res.violations.items())]
